@@ -27,7 +27,14 @@ func (m *Machine) exec(fr *frame, instr ssa.Instruction) continuation {
 
 	case *ssa.Call:
 		fn, args := m.prepareCall(fr, &instr.Call)
-		fr.env[instr] = m.call(fr, fn, args)
+		if m.initing > 0 && fr.fn.Synthetic != "" && fr.fn.Name() == "init" {
+			// package initialiser: a global whose initial value is out of
+			// reach (reflect.TypeFor, ...) keeps its zero value and is
+			// recorded; the remaining globals are still initialised.
+			fr.env[instr] = m.initCall(fr, instr, fn, args)
+		} else {
+			fr.env[instr] = m.call(fr, fn, args)
+		}
 
 	case *ssa.ChangeInterface:
 		fr.env[instr] = fr.get(instr.X)
@@ -1036,4 +1043,18 @@ func (m *Machine) decodeRune(s Str, i int) (*Term, int) {
 		return r, 4
 	}
 	return bad()
+}
+
+func (m *Machine) initCall(fr *frame, instr *ssa.Call, fn value, args []value) (res value) {
+	defer func() {
+		if r := recover(); r != nil {
+			if pe, ok := r.(pathEnd); ok && pe.kind == endUnsupported {
+				m.initProblems = append(m.initProblems, fr.fn.Pkg.Pkg.Path()+": "+pe.msg)
+				res = m.zero(instr.Type())
+				return
+			}
+			panic(r)
+		}
+	}()
+	return m.call(fr, fn, args)
 }
